@@ -971,6 +971,56 @@ func longContextPanics(c *Ctx, idx0 int64, valid string, invalid []byte, calls m
 		})
 		idx++
 	}
+	// EVERY byte value outside the alphabet (not just a handful) at the positions where a block-wise
+	// implementation changes blocks: m*B + d for B = 3072, 4095, 4096, 8192, 12288, 65536, m = 1, 2, d = -2..2.
+	// A byte that a case fold, a mask or a table maps onto a valid base when it is processed twice (carried
+	// over a block boundary) or through another path is one particular value at one particular place.
+	c.Case(idx, func(k *K) {
+		r := k.Rand()
+		isValid := [256]bool{}
+		for i := 0; i < len(valid); i++ {
+			isValid[valid[i]] = true
+		}
+		total := 2*65536 + 40
+		fill := randSeq(r, []byte(valid), total)
+		s := make([]byte, total)
+		var positions []int
+		blocks := []int{3072, 4095, 4096, 8192, 12288}
+		if c.Thorough {
+			blocks = append(blocks, 65536)
+		}
+		for _, b := range blocks {
+			for m := 1; m <= 2; m++ {
+				for d := -2; d <= 2; d++ {
+					positions = append(positions, m*b+d)
+				}
+			}
+		}
+		for _, p := range positions {
+			// the sequence ends a little after p, so that each call costs about p, not the full length
+			end := min(total, p+7)
+			for b := 0; b < 256; b++ {
+				if isValid[b] {
+					continue
+				}
+				copy(s[:end], fill[:end])
+				s[p] = byte(b)
+				for name, call := range calls {
+					if !expectPanic(func() { call(s[:end]) }) {
+						k.Input("byte", b)
+						k.Input("index", p)
+						k.Input("length", end)
+						k.Failf("missing-panic", "%s: byte %#x at index %d of an otherwise valid sequence of %d bases did not cause a panic", name, b, p, end)
+						return
+					}
+				}
+				k.Count("boundary_byte_panics", int64(len(calls)))
+			}
+			k.Evals(1)
+		}
+		k.Nontrivial([]byte(fmt.Sprint("boundary-bytes", valid)))
+	})
+	idx++
 	// The same over sequences far longer than any block a vectorised or chunked
 	// implementation works in (4 KiB, 8 KiB, 3072 codons, 64 KiB …): one invalid
 	// byte at EVERY index of a random valid sequence, the invalid bytes in rotation.
